@@ -113,6 +113,21 @@ def _cat(pieces):
     return z3.Concat(*pieces)
 
 
+def _tag(interp, pieces):
+    """remember the merge scopes a decomposition was established under: its defining facts are only assumed
+    under them, so it may only be used (for rewriting / piece sharing) where they are still in force"""
+    interp.st.ghost.setdefault('__decomp_scopes__', {})[id(pieces)] = (frozenset(x.get_id() for x in interp.st.scopes),
+                                                                       pieces)
+    return pieces
+
+
+def _visible(interp, pieces):
+    ent = interp.st.ghost.get('__decomp_scopes__', {}).get(id(pieces))
+    if ent is None:
+        return True
+    return ent[0] <= frozenset(x.get_id() for x in interp.st.scopes)
+
+
 def _decomps(interp, t):
     d = interp.st.ghost.setdefault('__decomps__', {})
     ent = d.get(t.get_id())
@@ -140,7 +155,10 @@ def norm(interp, t, depth=0):
     ent = d.get(t.get_id())
     if ent is None or not ent[1]:
         return t
-    pieces = ent[1][-1]
+    vis = [p for p in ent[1] if _visible(interp, p)]
+    if not vis:
+        return t
+    pieces = vis[-1]
     return _cat([x for p in pieces for x in _flat_concat(norm(interp, p, depth + 1))])
 
 
@@ -166,7 +184,7 @@ def cut(interp, t, a, base='piece'):
         sv = t.as_string()
         return z3.StringVal(sv[:a.as_long()]), z3.StringVal(sv[a.as_long():])
     decs = _decomps(interp, t)
-    for pieces in decs:
+    for pieces in [p for p in decs if _visible(interp, p)]:
         off = z3.IntVal(0)
         offs = [off]
         for p in pieces:
@@ -182,13 +200,13 @@ def cut(interp, t, a, base='piece'):
             if st.must_hold(z3.And(offs[j] <= a, a <= offs[j + 1])):
                 pa, pb = cut(interp, p, z3.simplify(a - offs[j]), base)
                 refined = pieces[:j] + [x for x in (pa, pb)] + pieces[j + 1:]
-                decs.append(refined)
+                decs.append(_tag(interp, refined))
                 return _cat(pieces[:j] + [pa]), _cat([pb] + pieces[j + 1:])
     p = _fresh(interp, base)
     q = _fresh(interp, base)
     st.assume(t == z3.Concat(p, q))
     st.assume(z3.Length(p) == a)
-    decs.append([p, q])
+    decs.append(_tag(interp, [p, q]))
     note_concat(interp, t, [p, q])
     return p, q
 
@@ -238,7 +256,7 @@ def _decompose_free(interp, t, lens, base):
     for p, n in zip(pieces, lens):
         if n is not None:
             st.assume(z3.Length(p) == _z(n))
-    _decomps(interp, t).append(list(pieces))
+    _decomps(interp, t).append(_tag(interp, list(pieces)))
     note_concat(interp, t, pieces)
     return pieces
 
@@ -273,7 +291,7 @@ def getitem(interp, s, idx):
         a = z3.IntVal(0) if idx.start is None else z3.simplify(_norm_index(idx.start, L, interp))
         b = z3.simplify(L) if idx.stop is None else z3.simplify(_norm_index(idx.stop, L, interp))
         key = (t.get_id(), a.sexpr(), b.sexpr())
-        if key in cache:
+        if key in cache and cache[key][2] <= frozenset(x.get_id() for x in st.scopes):
             return cache[key][0]
         if st.must_hold(b >= a):
             mid_len = z3.simplify(b - a)
@@ -290,7 +308,7 @@ def getitem(interp, s, idx):
         else:
             p, m, r = decompose(interp, t, [a_len, mid_len, None], 'slice')
             res = wrap(m)
-        cache[key] = (res, t)
+        cache[key] = (res, t, frozenset(x.get_id() for x in st.scopes))
         return res
     i = _s(idx)
     if st.fork(wrap(z3.And(i >= 0, i < L))):
@@ -392,7 +410,7 @@ def _strip(interp, s, chars, left, right):
         if right:
             st.assume(z3.InRe(b, cls))
             st.assume(z3.And(*[z3.Not(z3.SuffixOf(z3.StringVal(c), r)) for c in chars]))
-        _decomps(interp, t).append([x for x in (a, r, b) if not (z3.is_string_value(x) and x.as_string() == '')])
+        _decomps(interp, t).append(_tag(interp, [x for x in (a, r, b) if not (z3.is_string_value(x) and x.as_string() == '')]))
         note_concat(interp, t, [a, r, b])
     return wrap(r)
 
